@@ -191,3 +191,37 @@ func HarnessC05TypeFlipHistory() {
 	vassert(!f.local.TryAcquire(), "C05/stale-release-frees-slot-of-new-incarnation")
 	vreach("end")
 }
+
+// HarnessC05ShrinkBelowInflight: "after the limit is changed to M' new requests are admitted only while fewer than M'
+// are in flight" across a SHRINK below the number of requests in flight: j requests are admitted under limit M, the
+// schema is resized to M' < j, then the old requests end one by one; after every step exactly max(M' - unfinished, 0)
+// further requests can be admitted - the excess over M' is not forgotten while it drains, and all M' slots are back
+// once everything has finished.
+// verif:bounds M in 1..3 (quick) / 4 (thorough), j in 1..M admitted, M' in 0..j-1, then up to j releases, free slots probed after the resize and after each release
+func HarnessC05ShrinkBelowInflight() {
+	f := c05NewCache("fc")
+	m := int32(nondetRange("M", 1, vbound(3, 4)))
+	f.local.Sync(c05Schema(c05MaxInflight, m))
+	j := nondetRange("admitted", 1, int(m))
+	for i := 0; i < j; i++ {
+		vassert(f.local.TryAcquire(), "C05/admission-refused-below-limit")
+	}
+	m2 := int32(nondetRange("shrinkTo", 0, j-1))
+	f.local.Sync(c05Schema(c05MaxInflight, m2))
+	unfinished := j
+	for {
+		want := int(m2) - unfinished
+		if want < 0 {
+			want = 0
+		}
+		free := c05FreeSlots(f, int(m))
+		vassert(free <= want, "C05/more-than-M-admitted-and-unfinished")
+		vassert(free >= want, "C05/admission-refused-below-limit")
+		if unfinished == 0 {
+			break
+		}
+		f.local.Release()
+		unfinished--
+	}
+	vreach("end")
+}
